@@ -1,4 +1,6 @@
-(* C15 glue: input = the string handed to stanza.NewJid, as code points.
+(* C15 glue: input = the string handed to stanza.NewJid, as units (code points; a byte
+   outside well-formed UTF-8 as 0x110000 + byte, see Model/Jid.v); the strings of the
+   output are compared in the same encoding, i.e. byte-exactly.
    Output: (0) on error; (1 node domain resource full bare r_full r_bare) on success,
    where r_full / r_bare are the results of parsing Full() / Bare() again, each
    (0) or (1 node domain resource).
